@@ -285,6 +285,8 @@ class Engine:
         self.counter[("ob", name)] = n + 1
         if n:
             name = f"{name}#{n}"
+        meta = dict(meta or {})
+        meta.setdefault("level", getattr(self, "sat_level", 0))
         ob = Obligation(name, kind, state.hyps(), g, meta)
         self.obligations.append(ob)
         state.pc.append(g)
